@@ -81,6 +81,7 @@ def run(repo, chk):
                 okg = isinstance(gd, Ineq) and gd.lb is None and gd.ub is not None and is_zero(canon(gd.body)[0] - canon(ex.S(gd.ub))[0] - gref[i])
                 chk.expect(bool(okg), "R-C07-1", "branch %d guard is %s <= 0 [%s]" % (i, gref[i], tag), loc(fn), found=str(gd))
         g = {1: refs[0], 3: refs[2], 5: refs[4]}
+    B.check_updaters(chk, "R-C07-1", fn, "pdd_constraint", paths, {"_is_isolated"}, loc(fn))
     chk.expect(seen_exp == {True, False}, "R-C07-1", "both exponent sources (junction / global) are handled", loc(fn), found=sorted(seen_exp))
     # monotone analytic branches
     pp = sp.Symbol("p", positive=True)
@@ -194,6 +195,7 @@ def run(repo, chk):
         attrs = set(p2.updater_attrs())
         need = {"minimum_pressure", "required_pressure"} | ({"pressure_exponent"} if eglob is not None else set())
         chk.expect(need <= attrs, "R-C07-4", "pdd_poly_coeffs_param re-computes when the junction's Pmin/Pnom change [%s]" % tag, loc(pfn), found=sorted(attrs))
+        B.check_updaters(chk, "R-C07-4", pfn, "pdd_poly_coeffs_param", [p2], need, loc(pfn))
     chk.floor("R-C07-3", 4 * 20)
 
     # ---------------------------------------------------------------- R-C07-4 overrides
@@ -214,7 +216,7 @@ def run(repo, chk):
             chk.expect(isinstance(val, Opaque) and val.text == want, "R-C07-4", "%s uses %s" % (pname, "the global option when the junction has none" if none[0] else "the junction's override"),
                        loc(fn2), expected=want, found=val)
             seen.add(none[0])
-            chk.expect(attr in p.updater_attrs(), "R-C07-4", "%s re-computes when the junction's %s changes" % (pname, attr), loc(fn2), found=p.updater_attrs())
+            B.check_updaters(chk, "R-C07-4", fn2, pname, [p], {attr}, loc(fn2))
         chk.expect(seen == {True, False}, "R-C07-4", "%s handles both override cases" % pname, loc(fn2), found=sorted(seen))
         if pname == "pnom_param":
             raised = [p for p in pths if p.st.raised]
